@@ -20,16 +20,24 @@ _OUTSIDE = st.sampled_from([-1e-9, 1 + 1e-9, -0.5, 1.5, -1e-300, 1.0000000000000
 @st.composite
 def _cases(draw):
     n, m = draw(st.integers(0, 8)), draw(st.integers(0, 8))
-    dtype = draw(st.sampled_from(["float", "float", "float", "int", "uint8", "bool", "float32"]))
+    dtype = draw(st.sampled_from(["float", "float", "float", "int", "uint8", "bool", "float32", "float32r", "float16"]))
     if dtype in ("int", "uint8", "bool"):
         g = draw(st.lists(st.integers(0, 1), min_size=n, max_size=n))
         f = draw(st.lists(st.integers(0, 1), min_size=m, max_size=m))
-    elif dtype == "float32":
+    elif dtype in ("float32", "float16"):
         g = [k / 64 for k in draw(st.lists(st.integers(0, 64), min_size=n, max_size=n))]
         f = [k / 64 for k in draw(st.lists(st.integers(0, 64), min_size=m, max_size=m))]
+    elif dtype == "float32r":
+        # arbitrary single-precision values (midpoints between two of them need not be one)
+        g = [float(np.float32(x)) for x in draw(st.lists(st.floats(min_value=0.0, max_value=1.0), min_size=n, max_size=n))]
+        f = [float(np.float32(x)) for x in draw(st.lists(st.floats(min_value=0.0, max_value=1.0), min_size=m, max_size=m))]
     else:
         g = draw(st.lists(_INSIDE, min_size=n, max_size=n))
         f = draw(st.lists(_INSIDE, min_size=m, max_size=m))
+    if draw(st.integers(0, 3)) == 0 and n and m:
+        # perfectly separated classes, in either direction
+        allv = sorted(g + f)
+        g, f = (allv[m:], allv[:m]) if draw(st.booleans()) else (allv[:n], allv[n:])
     bad = draw(st.sampled_from(["none", "none", "none", "genuine", "fraud"]))
     if dtype == "bool":
         bad = "none"
@@ -61,7 +69,8 @@ def check(case):
     from score_analysis.applications import DocLabel, FraudScores, binary_to_doc_label, doc_to_binary_label
 
     warnings.simplefilter("ignore")
-    dt = {"int": int, "uint8": np.uint8, "bool": bool, "float32": np.float32}.get(case["dtype"], float)
+    dt = {"int": int, "uint8": np.uint8, "bool": bool, "float32": np.float32, "float32r": np.float32,
+          "float16": np.float16}.get(case["dtype"], float)
     g, f = np.asarray(case["g"], dtype=dt), np.asarray(case["f"], dtype=dt)
     outside = any((x < 0) or (x > 1) for x in case["g"] + case["f"])
     if case.get("nan_at") is not None:
@@ -121,8 +130,28 @@ def check(case):
             require(_same(getattr(fs, "threshold_at_" + m)(rs, method=meth),
                           getattr(ref, "threshold_at_" + m)(rs, method=meth)), "fraud:threshold",
                     f"{ctx}: threshold_at_{m} {meth} {rs.tolist()}")
+    # the general threshold search, on all scores and on a grid spanning them
+    if len(set(map(float, case["g"] + case["f"]))) >= 2:
+        for mname in ("fpr", "topr", "frr"):
+            rel = {"fpr": m_, "frr": n}.get(mname, n + m_)
+            if rel == 0:
+                continue
+            for pts in (None, 3, 8):
+                a_ = fs.threshold_at_metric(rs, mname, pts)
+                b_ = ref.threshold_at_metric(rs, mname, pts)
+                require(len(a_) == len(b_) and all(_same(x, y) for x, y in zip(a_, b_)), "fraud:threshold",
+                        lambda: f"{ctx}: threshold_at_metric({rs.tolist()}, {mname!r}, {pts}) gives "
+                                f"{[np.ravel(x).tolist() for x in a_]}, Scores gives {[np.ravel(x).tolist() for x in b_]}")
+    # comparisons are queries, too
+    other = Scores(g, f, nb_easy_pos=case["eg"] + 1, nb_easy_neg=case["ef"], score_class=ref.score_class.value,
+                   equal_class="pos")
+    for x, nm in ((ref, "an equal Scores object"), (other, "a different Scores object"), (fs, "itself")):
+        require((fs == x) == (ref == x) and (x == fs) == (x == ref), "fraud:equality",
+                f"{ctx}: comparison with {nm}: FraudScores says {fs == x} / {x == fs}, Scores says {ref == x} / {x == ref}")
+    require(fs.swap() == ref.swap() and fs.swap().swap() == fs, "fraud:equality", f"{ctx}: swap()")
     if n and m_:
-        require(_same(np.asarray(fs.eer()), np.asarray(ref.eer())), "fraud:eer", ctx)
+        require(_same(np.asarray(fs.eer()), np.asarray(ref.eer())), "fraud:eer",
+                f"{ctx}: eer() {fs.eer()} vs Scores {ref.eer()}")
         require(_same(fs.auc(), ref.auc()) and _same(fs.auc(0.1, 0.7), ref.auc(0.1, 0.7)), "fraud:auc", ctx)
     # from_labels splits by the genuine label
     sco = np.concatenate([g, f])
@@ -216,4 +245,4 @@ PROP = Prop(
                     min_nontrivial=200, doc="validation iff out of range; differential vs Scores")],
 )
 
-RULE_EXTRA = ("uint8 / bool / float32 arrays; a NaN next to an out-of-range value (only 'must raise' asserted); queries before and after assignment through the setters.")
+RULE_EXTRA = ("uint8 / bool / float32 (dyadic and arbitrary) / float16 arrays; perfectly separated classes; threshold_at_metric on all scores and on grids; == / swap() against Scores; a NaN next to an out-of-range value (only 'must raise' asserted); queries before and after assignment through the setters.")
